@@ -57,6 +57,8 @@ class C01(Check):
             d = rng.choice([1, 2, 2, 3, 3, 4] if tier == 'quick' else [1, 2, 3, 3, 4, 4, 5, 6])
             g = fml.Gen(rng, nvars=nv, maxb=rng.choice([2, 3, 5]), fancy_arith=(rng.random() < 0.3))
             f = g.formula(d)
+            if rng.random() < 0.3:
+                f = fml.add_unless(rng, f)       # the sugar unless / unless[a,b]
             if fml.size(f) > 60:
                 continue
             n = rng.choice([1, 1, 2, 2, 3, 4, 5, 6, 8, 10, 15, 25, 40])
